@@ -46,7 +46,7 @@ func TestC20KnownFindings(t *testing.T) {
 		t.Skip()
 	}
 	if lab.Open("shutdown-put-orphan") {
-		rounds, leaked, _ := reproOrphan(200000, 20*time.Second)
+		rounds, leaked, _ := reproOrphan(60000, 10*time.Second)
 		if len(leaked) > 0 {
 			lab.KnownFinding("shutdown-put-orphan", fmt.Sprintf("schedule-dependent: WebSocketPool.Put concurrent with Shutdown: after %d round(s) of {8 actors x 4 Put(b0, fresh) || 1 actor Shutdown}, connection(s) %v were accepted (Put returned true), "+
 				"never handed out again and are still open after a further, quiescent Shutdown (Stats 0/0): Put released the pool-map lock before locking the per-backend pool, Shutdown emptied that per-backend pool and replaced the map in between, the connection went into the orphaned object; "+
